@@ -73,6 +73,7 @@ func checkC03(c *Ctx) {
 	c.c03Sequence("C03", m, t)
 	c.c03Reset("C03", m, t)
 	c.c03Replies(m, t)
+	c.c03Greeting(m, t)
 	c.c01Atomic("C03/ATOMIC", m)
 	// inside the DATA read itself a failed read (the peer went away before the final dot)
 	// must surface as an error; otherwise the bytes read so far are delivered
@@ -232,11 +233,26 @@ func (c *Ctx) c03Discard(pfx string, m *smtpModel, t *smtpTS) {
 		iff := eng.IfOf(e.b)
 		open := false
 		var cfgs []tsEvent
+		var openCfgs []eng.TSConfig
 		for _, cfg := range t.ts.ConfigsAt(iff) {
 			cfgs = append(cfgs, tsEvent{cfg: cfg})
 			if cfg.A == m.states["MAIL"] || cfg.B != rcEmpty {
 				open = true
+				openCfgs = append(openCfgs, cfg)
 			}
+		}
+		// only branches that an open-envelope configuration can take matter (the state and
+		// the recipient list do not change between the arm and the reset)
+		feasible := func(b *ssa.BasicBlock, k int) bool {
+			if len(b.Succs) != 2 {
+				return true
+			}
+			for _, cfg := range openCfgs {
+				if _, ok := t.Refine(b, k, cfg); ok {
+					return true
+				}
+			}
+			return false
 		}
 		cons := siteCons(p, iff, ord, "discard:"+e.kw)
 		if len(cfgs) == 0 {
@@ -248,7 +264,7 @@ func (c *Ctx) c03Discard(pfx string, m *smtpModel, t *smtpTS) {
 			continue
 		}
 		// structural: from the arm, a return or read is reachable without reset → violation
-		miss := (&eng.Search{Target: eng.Or(eng.IsReturnOf(fn), isRead), Avoid: resetOrQuit, Deep: true}).FromBlockStart(e.b.Succs[e.k])
+		miss := (&eng.Search{Target: eng.Or(eng.IsReturnOf(fn), isRead), Avoid: resetOrQuit, Deep: true, Edge: feasible}).FromBlockStart(e.b.Succs[e.k])
 		if miss != nil {
 			r.Bad(pfx+"/TS/reset", cons, p.InstrPos(iff), "the %s arm can be taken with an open envelope (%s) and reaches %s without the envelope reset: the envelope survives %s", e.kw, t.cfgSet(cfgs), p.InstrPos(miss), e.kw)
 		} else {
@@ -337,4 +353,43 @@ func (c *Ctx) c01Atomic(rule string, m *smtpModel) {
 		_ = isDeliver
 		r.Ok(rule, cons, p.InstrPos(site), "Deliver is dominated by the success edge of the DATA read at %s", p.InstrPos(gcall))
 	}
+}
+
+// c03Greeting: the session leaves GREET for a working state only through a HELO/EHLO arm.
+func (c *Ctx) c03Greeting(m *smtpModel, t *smtpTS) {
+	r, p := c.R, c.P
+	r.Rule("C03/TS/greeting", "typestate: a state transition executed while state=GREET goes to GREET or QUIT, unless a cmd==\"HELO\"/\"EHLO\" arm was taken since the last input read: MAIL is never reachable without a greeting")
+	n := 0
+	ord := map[string]int{}
+	for name, k := range m.states {
+		if name == "GREET" || name == "QUIT" {
+			continue
+		}
+		_ = k
+		sites := t.bySite("enter:" + name)
+		for _, in := range sortedSites(sites) {
+			var bad []tsEvent
+			fromGreet := false
+			for _, e := range sites[in] {
+				if e.cfg.A != m.states["GREET"] {
+					continue
+				}
+				fromGreet = true
+				if e.cfg.D != 1 {
+					bad = append(bad, e)
+				}
+			}
+			if !fromGreet {
+				continue
+			}
+			n++
+			cons := siteCons(p, in, ord, "leave-GREET:"+name)
+			if len(bad) > 0 {
+				r.Bad("C03/TS/greeting", cons, p.InstrPos(in), "enterState(%s) is reachable with state=GREET on a path that took no HELO/EHLO arm since the last read: a command other than a greeting (e.g. RSET as the first command) makes the session ready, and MAIL is then accepted from a client that never greeted", name)
+			} else {
+				r.Ok("C03/TS/greeting", cons, p.InstrPos(in), "reached from GREET only inside a HELO/EHLO arm")
+			}
+		}
+	}
+	r.Floor("C03/TS/greeting", "transitions out of GREET", n, 1)
 }
